@@ -50,7 +50,13 @@ JudgeIssued(e) ==
   IN PrintT(<<"NOTE", l, ToJson([kind |-> "issued", v |-> d, pad |-> "................................................................"])>>)
      /\ e.gen_err = "" /\ d # "malformed" /\ Result(e.go, d)
 
+\* {"k":"Tampered","orig":hex text of a payload GeneratePayload returned,"payload":hex text of the altered copy, "go":..}
+JudgeTampered(e) ==
+  LET d == TamperedVerdict(HexToBytes(e.orig), HexToBytes(e.payload))
+  IN PrintT(<<"NOTE", l, ToJson([kind |-> "tampered", v |-> d, pad |-> "................................................................"])>>) /\ Result(e.go, d)
+
 Judge(e) == CASE e.k = "Check"   -> JudgeCheck(e)
+              [] e.k = "Tampered" -> JudgeTampered(e)
               [] e.k = "Payload" -> JudgePayload(e)
               [] e.k = "Issued"  -> JudgeIssued(e)
               [] OTHER -> FALSE          \* Panic, Crash, unknown kinds: no action
